@@ -1656,7 +1656,7 @@ func Run(c *hx.Ctx) error {
 		}
 		if i%8 == 3 {
 			// a history on a whole engine: the store side of drop measurement / retention policy / database (enginehist.go)
-			if err := runEngineHistory(c, hx.NewRng(r.U64()^(uint64(i)*0xA24BAED4963EE407)), i); err != nil {
+			if err := runEngineHistory(c, hx.NewRng(r.U64()^(uint64(i)*0xA24BAED4963EE407)), i, i%16 == 11); err != nil {
 				return err
 			}
 			continue
